@@ -139,6 +139,9 @@ func evalC19Line(c C19LineCase) *h.Finding {
 		if len(lineReplies) != 1 || !tooLong(lineReplies[0]) {
 			return h.F("c19-endless-reply", "%s: replies to an endless line: %v, want exactly one 500 5.4.0", desc, lineReplies)
 		}
+		if !o.Closed {
+			return h.F("c19-not-closed", "%s: an endless line was answered 500 but the server never closed the connection", desc)
+		}
 		bound := nPrefix + c.Limit + 2*4096
 		if o.Taken > bound {
 			return h.F("c19-unbounded-input", "%s: the server took %d octets of input before it closed the connection (bound %d)", desc, o.Taken-nPrefix, bound-nPrefix)
@@ -154,6 +157,9 @@ func evalC19Line(c C19LineCase) *h.Finding {
 	case c.Len >= c.Limit+2:
 		if len(lineReplies) != 1 || !tooLong(lineReplies[0]) {
 			return h.F("c19-long-line-reply", "%s: replies attributable to the over-long line: %v, want exactly one 500 5.4.0 and a closed connection", desc, lineReplies)
+		}
+		if !o.Closed {
+			return h.F("c19-not-closed", "%s: the over-long line was answered 500 but the server never closed the connection", desc)
 		}
 	case c.Len <= c.Limit:
 		for _, r := range lineReplies {
@@ -396,6 +402,9 @@ func evalC19Str(c C19StrCase) *h.Finding {
 			return h.F("c19-str-reply-class", "%s: garbage answered with %s", desc, r.String())
 		}
 	}
+	if n >= 4 && !o.Closed {
+		return h.F("c19-not-closed", "%s: four bad commands were answered (%s) but the server never closed the connection", desc, o.Codes())
+	}
 	for _, e := range o.Trace[0:] {
 		if e.Kind == "Data" || e.Kind == "LMTPData" {
 			return h.F("c19-str-callback", "%s: garbage caused a %s callback", desc, e.Kind)
@@ -501,6 +510,9 @@ func evalC19Seq(c C19SeqCase) *h.Finding {
 	}
 	if !ok {
 		return h.F("c19-threshold", "%s: replies %s, want %v (the connection is closed exactly by the 4th unrecognised or malformed command, with one closing 500)", desc, o.Codes(), want)
+	}
+	if errs > 3 && !o.Closed {
+		return h.F("c19-not-closed", "%s: the server announced that it gives up (%s) but never closed the connection", desc, o.Codes())
 	}
 	return nil
 }
